@@ -6,6 +6,8 @@ package main
 
 import (
 	"bytes"
+	"math/big"
+	"strconv"
 	"context"
 	"encoding/json"
 	"fmt"
@@ -39,32 +41,38 @@ func goLitOfModel(v string, sort Sort) string {
 		}
 		return v
 	default:
-		// real: forms  n.0 | (/ a.0 b.0) | (- x)
+		// real: forms  n.0 | (/ a.0 b.0) | (- x) -> nearest float64
 		neg := false
 		if strings.HasPrefix(v, "(-") {
 			neg = true
 			v = strings.TrimSpace(strings.TrimSuffix(strings.TrimPrefix(v, "(-"), ")"))
 		}
-		var s string
+		r := new(big.Rat)
+		ok := false
 		if strings.HasPrefix(v, "(/") {
 			f := strings.Fields(strings.TrimSuffix(strings.TrimPrefix(v, "(/"), ")"))
 			if len(f) == 2 {
-				s = fmt.Sprintf("(float64(%s) / float64(%s))", strings.TrimSuffix(f[0], ".0"), strings.TrimSuffix(f[1], ".0"))
+				a, ok1 := new(big.Rat).SetString(strings.TrimSuffix(f[0], ".0"))
+				b, ok2 := new(big.Rat).SetString(strings.TrimSuffix(f[1], ".0"))
+				if ok1 && ok2 && b.Sign() != 0 {
+					r.Quo(a, b)
+					ok = true
+				}
 			}
 		} else {
-			s = "float64(" + strings.TrimSuffix(v, ".0") + ")"
-			if strings.Contains(v, ".") && !strings.HasSuffix(v, ".0") {
-				s = "float64(" + v + ")"
-			}
+			_, ok = r.SetString(v)
+		}
+		if !ok {
+			return "0.0"
 		}
 		if neg {
-			return "-" + s
+			r.Neg(r)
 		}
-		return s
+		f, _ := r.Float64()
+		return "float64(" + strconv.FormatFloat(f, 'g', -1, 64) + ")"
 	}
 }
 
-// compilable subset of the generated spec file: prelude, spec funcs, clause functions (no ghost bodies), used imports only
 func (w *World) replaySpecSource(pk *Pkg) string {
 	var sb strings.Builder
 	for _, d := range pk.GenFile.Decls {
@@ -282,9 +290,21 @@ func (w *World) replay(u *UnitResult, o *Obligation, outPath string) *ReplayResu
 		}
 		tb.WriteString("\t}()\n")
 		tb.WriteString("\tif !pre { say(\"model does not satisfy the precondition on the real code: not a witness\") } else if panicked && !mayPanic {\n\t\tconfirmed = true; say(\"CONFIRMED: the real function panics on a valid input: %v\", pv)\n\t} else if !panicked && mayPanic {\n\t\tconfirmed = true; say(\"CONFIRMED: the real function returns normally although the contract says it must panic\")\n\t} else if !panicked {\n")
-		post := append(append([]string{}, clauseArgs...), resNames...)
+		post := append([]string{}, clauseArgs...)
+		ghostNames := map[string]bool{}
 		for _, c := range d.Clauses {
-			if c.Kind == "ensures" {
+			if c.Kind == "ghost" {
+				z := "0"
+				if c.SplitHi == "bool" {
+					z = "false"
+				}
+				post = append(post, c.SplitHi+"("+z+")")
+				ghostNames[c.SplitLo] = true
+			}
+		}
+		post = append(post, resNames...)
+		for _, c := range d.Clauses {
+			if c.Kind == "ensures" && !mentionsAny(c.Text, ghostNames) {
 				fmt.Fprintf(&tb, "\t\tfunc() {\n\t\t\tdefer func() { if r := recover(); r != nil { confirmed = true; say(\"CONFIRMED: postcondition cannot be evaluated on the result (%%v): %%s\", r, %q) } }()\n\t\t\tif !%s(%s) { confirmed = true; say(\"CONFIRMED: postcondition false on the real result: %%s\", %q) }\n\t\t}()\n", c.Text, c.FnName, strings.Join(post, ", "), c.Text)
 			}
 		}
@@ -412,4 +432,13 @@ func derefResults(names []string, sig *types.Signature) string {
 		}
 	}
 	return strings.Join(out, ", ")
+}
+
+func mentionsAny(text string, names map[string]bool) bool {
+	for n := range names {
+		if regexp.MustCompile(`\b` + regexp.QuoteMeta(n) + `\b`).MatchString(text) {
+			return true
+		}
+	}
+	return false
 }
